@@ -26,7 +26,7 @@ func c02SeqParts() []sup.Part {
 
 func c08SeqParts() []sup.Part {
 	cfg := func(r *rng.R, local int) kv.Config {
-		return kv.Config{Disk: local%2 == 1, Buckets: 1, Handles: 2, Colls: 2, FeedsPer: 2 + local%2, Marker: true}
+		return kv.Config{Disk: local%2 == 1, Buckets: 1, Handles: 2, Colls: 2, FeedsPer: 2 + local%2, Marker: true, KeysOnly: local%4 >= 2}
 	}
 	ex := kvOpts{
 		Sim:       kv.SimOptions{JudgeEvents: true},
